@@ -54,7 +54,7 @@ theorem cls_le (n : Nat) : (detailOf n).1 ≤ 4 := by
 
 macro "prune" "[" hs:Lean.Parser.Tactic.simpLemma,* "]" : tactic =>
   `(tactic| simp only [$hs,*, ↓reduceIte, beq_iff_eq, bne_iff_ne, ne_eq, Bool.or_eq_true, Bool.and_eq_true, decide_eq_true_eq,
-      not_true_eq_false, not_false_eq_true, Bool.and_self, Bool.true_and, Bool.and_true, or_self, and_self])
+      not_true_eq_false, not_false_eq_true, Nat.reduceEqDiff, Bool.and_self, Bool.true_and, Bool.and_true, or_self, and_self])
 
 theorem toSt_ite {c : Prop} {_ : Decidable c} (x y : CCtx) (b : St) :
     toSt (if c then x else y) b = if c then toSt x b else toSt y b := by split <;> rfl
@@ -99,5 +99,202 @@ theorem loop_refines (b : St) : ∀ (fuel : Nat) (regs : List Reg) (log : List (
     by_cases hD : cls = 3
     · prune [h0, hA, hB, hC, hD]; fin ih
     · exfalso; omega
+
+
+/-! ### fuel: the walk up the register hierarchy is at most three iterations for the generated tables -/
+
+/-- iterations that can follow the one for `name`: a condition register is followed by its event register, an event or
+enable register by the parent (the status byte), the status byte / SRE by nothing -/
+def rank (n : Nat) : Nat :=
+  if (detailOf n).1 = 4 then 2 else if (detailOf n).1 = 2 ∨ (detailOf n).1 = 3 then 1 else 0
+
+/-- table fact (all rows of the generated tables, and the rows the model uses outside them): where one iteration of
+SCPI_RegSet continues, it continues with a register of smaller rank -/
+theorem table_desc (n : Nat) :
+    (((detailOf n).1 = 0 ∨ (detailOf n).1 = 1) → (groupOf (detailOf n).2).parentReg = 11) ∧
+    ((detailOf n).1 = 2 → rank (groupOf (detailOf n).2).parentReg < rank n) ∧
+    ((detailOf n).1 = 3 → rank (groupOf (detailOf n).2).parentReg < rank n) ∧
+    ((detailOf n).1 = 4 → rank (groupOf (detailOf n).2).event < rank n) := by
+  by_cases h : n < 10
+  · have : ∀ m, m < 10 →
+        (((detailOf m).1 = 0 ∨ (detailOf m).1 = 1) → (groupOf (detailOf m).2).parentReg = 11) ∧
+        ((detailOf m).1 = 2 → rank (groupOf (detailOf m).2).parentReg < rank m) ∧
+        ((detailOf m).1 = 3 → rank (groupOf (detailOf m).2).parentReg < rank m) ∧
+        ((detailOf m).1 = 4 → rank (groupOf (detailOf m).2).event < rank m) := by decide
+    exact this n h
+  · have hl : Gen.regDetails.length ≤ n := by
+      have : Gen.regDetails.length = 10 := by decide
+      omega
+    have e : detailOf n = (0, 0) := by
+      simp [detailOf, List.getD_eq_getElem?_getD, List.getElem?_eq_none hl]
+    rw [e]
+    exact ⟨fun _ => by decide, fun h => absurd h (by decide), fun h => absurd h (by decide), fun h => absurd h (by decide)⟩
+
+section
+attribute [local irreducible] regSetLoop
+/-- the hand model does not depend on the fuel beyond the rank of the register -/
+theorem hand_fuel : ∀ (f1 f2 : Nat) (s : St) (name : Nat) (val : Reg), rank name < f1 → rank name < f2 →
+    regSetLoop f1 s name val = regSetLoop f2 s name val := by
+  intro f1
+  induction f1 with
+  | zero => intros; omega
+  | succ n ih =>
+    intro f2 s name val h1 h2
+    obtain ⟨m, rfl⟩ : ∃ m, f2 = m + 1 := ⟨f2 - 1, by omega⟩
+    have hcls := cls_le name
+    obtain ⟨t1, t2, t3, t4⟩ := table_desc name
+    simp only [regSetLoop]
+    generalize rank name = r at *
+    generalize detailOf name = d at *
+    obtain ⟨cls, grp⟩ := d
+    generalize groupOf grp = g at *
+    simp only [clsSTB_eq, clsSRE_eq, clsEVEN_eq, clsENAB_eq, clsCOND_eq, regNone_eq] at *
+    by_cases hA : cls = 0 ∨ cls = 1
+    · have := t1 hA; simp only [hA, this, ↓reduceIte, ne_eq, not_true_eq_false]
+    by_cases hB : cls = 2
+    · have := t2 hB
+      have e := fun s v => ih m s g.parentReg v (by omega) (by omega)
+      simp only [hA, hB, ↓reduceIte, Nat.reduceEqDiff, or_self, e]
+    by_cases hC : cls = 4
+    · have := t4 hC
+      have e := fun s v => ih m s g.event v (by omega) (by omega)
+      simp only [hA, hB, hC, ↓reduceIte, Nat.reduceEqDiff, or_self, e]
+    by_cases hD : cls = 3
+    · have := t3 hD
+      have e := fun s v => ih m s g.parentReg v (by omega) (by omega)
+      simp only [hA, hB, hC, hD, ↓reduceIte, Nat.reduceEqDiff, or_self, e]
+    · exfalso; omega
+
+end
+
+
+theorem oof_ite {c : Prop} {_ : Decidable c} (x y : CCtx) : (if c then x else y).oof = if c then x.oof else y.oof := by
+  split <;> rfl
+theorem fst_ite {α β : Type} {c : Prop} {_ : Decidable c} (x y : α × β) : (if c then x else y).1 = if c then x.1 else y.1 := by
+  split <;> rfl
+
+macro "finoof" ih:ident : tactic =>
+  `(tactic| ((try simp only [oof_ite, fst_ite, loop_ite])
+             repeat' split
+             all_goals (first | rfl | (simp (disch := omega) only [$ih:ident]))))
+
+/-- the fuel the translator emits suffices: a walk that starts at a register of rank below the fuel never sets `oof`
+(whatever callbacks are present) -/
+theorem loop_oof : ∀ (fuel : Nat) (c : CCtx) (name : Nat) (val : Reg), rank name < fuel →
+    (SCPI_RegSet_loop1 fuel c name val).oof = c.oof := by
+  intro fuel
+  induction fuel with
+  | zero => intros; omega
+  | succ n ih =>
+    intro c name val hr
+    obtain ⟨regs, hi, hc, log, ret, oof⟩ := c
+    have hcls := cls_le name
+    obtain ⟨t1, t2, t3, t4⟩ := table_desc name
+    simp only [regsC, det_type, det_group, grp_eq]
+    generalize rank name = r at *
+    generalize detailOf name = d at *
+    obtain ⟨cls, grp⟩ := d
+    generalize groupOf grp = g at *
+    simp only at hcls t1 t2 t3 t4
+    by_cases h0 : regs.getD name 0 = val
+    · prune [h0]
+    by_cases hA : cls = 0 ∨ cls = 1
+    · have := t1 hA; prune [h0, hA, this]; finoof ih
+    by_cases hB : cls = 2
+    · have := t2 hB; prune [h0, hA, hB]; finoof ih
+    by_cases hC : cls = 4
+    · have := t4 hC; prune [h0, hA, hB, hC]; finoof ih
+    by_cases hD : cls = 3
+    · have := t3 hD; prune [h0, hA, hB, hC, hD]; finoof ih
+    · exfalso; omega
+
+theorem rank_le (n : Nat) : rank n ≤ 2 := by unfold rank; split <;> (try split) <;> omega
+
+
+/-! ### frame: the walk changes nothing but registers, log and (without fuel) `oof` -/
+
+def flags (c : CCtx) : Bool × Bool × Int := (c.hasInterface, c.hasControl, c.ctrlRet)
+
+theorem flags_ite {c : Prop} {_ : Decidable c} (x y : CCtx) : flags (if c then x else y) = if c then flags x else flags y := by
+  split <;> rfl
+
+theorem loop_flags : ∀ (fuel : Nat) (c : CCtx) (name : Nat) (val : Reg),
+    flags (SCPI_RegSet_loop1 fuel c name val) = flags c := by
+  intro fuel
+  induction fuel with
+  | zero => intros; rfl
+  | succ n ih =>
+    intro c name val
+    obtain ⟨regs, hi, hc, log, ret, oof⟩ := c
+    simp only [regsC, det_type, det_group, grp_eq]
+    generalize detailOf name = d
+    obtain ⟨cls, grp⟩ := d
+    generalize groupOf grp = g
+    (try simp only [flags_ite, fst_ite, loop_ite])
+    repeat' split
+    all_goals (first | rfl | (simp only [ih]; rfl))
+
+/-! ### the four functions -/
+
+/-- the control callback is installed (`context->interface` and `context->interface->control` are not NULL): what the
+hand model assumes throughout -/
+def CB (c : CCtx) : Prop := c.hasInterface = true ∧ c.hasControl = true
+
+theorem regGet_refines (c : CCtx) (b : St) (name : Nat) : SCPI_RegGet c name = Regs.get (toSt c b) name := by
+  simp only [regsC, Regs.get, toSt, regCount_eq', decide_eq_true_eq]
+  rfl
+
+theorem fuel_ok (name : Nat) : rank name < SCPI_RegSet_loop1_fuel ∧ rank name < 8 := by
+  have := rank_le name
+  have : 3 ≤ SCPI_RegSet_loop1_fuel := by decide
+  omega
+
+theorem regSet_refines (c : CCtx) (b : St) (name : Nat) (val : Reg) (hcb : CB c) :
+    toSt (SCPI_RegSet c name val) b = regSet (toSt c b) name val := by
+  obtain ⟨regs, hi, hc, log, ret, oof⟩ := c
+  obtain ⟨h1, h2⟩ := hcb
+  simp only at h1 h2
+  subst h1 h2
+  simp only [SCPI_RegSet, regSet, toSt_ite, decide_eq_true_eq, regCount_eq', ge_iff_le]
+  split
+  · rfl
+  · rw [loop_refines, hand_fuel _ 8 _ _ _ (fuel_ok name).1 (fuel_ok name).2]; rfl
+
+theorem regSet_oof (c : CCtx) (name : Nat) (val : Reg) : (SCPI_RegSet c name val).oof = c.oof := by
+  simp only [SCPI_RegSet, oof_ite]
+  split
+  · rfl
+  · exact loop_oof _ _ _ _ (fuel_ok name).1
+
+theorem regSet_flags (c : CCtx) (name : Nat) (val : Reg) : flags (SCPI_RegSet c name val) = flags c := by
+  simp only [SCPI_RegSet, flags_ite, loop_flags]
+  split <;> rfl
+
+theorem regSet_cb (c : CCtx) (name : Nat) (val : Reg) (h : CB c) : CB (SCPI_RegSet c name val) := by
+  have := regSet_flags c name val
+  simp only [flags, Prod.mk.injEq] at this
+  exact ⟨this.1.trans h.1, this.2.1.trans h.2⟩
+
+theorem regSetBits_refines (c : CCtx) (b : St) (name : Nat) (bits : Reg) (hcb : CB c) :
+    toSt (SCPI_RegSetBits c name bits) b = regSetBits (toSt c b) name bits := by
+  simp only [SCPI_RegSetBits, regSetBits, regSet_refines _ _ _ _ hcb, regGet_refines c b]
+
+theorem regClearBits_refines (c : CCtx) (b : St) (name : Nat) (bits : Reg) (hcb : CB c) :
+    toSt (SCPI_RegClearBits c name bits) b = regClearBits (toSt c b) name bits := by
+  simp only [SCPI_RegClearBits, regClearBits, regSet_refines _ _ _ _ hcb, regGet_refines c b]
+
+/-- the context that stands for a state of the hand model (callback installed, nothing out of fuel) -/
+def ofSt (s : St) : CCtx :=
+  { registers := s.regs, hasInterface := true, hasControl := true, ctrlLog := s.srq.map (fun v => (SCPI_CTRL_SRQ, v)),
+    ctrlRet := 0, oof := false }
+
+theorem srqOf_map (l : List Reg) : srqOf (l.map (fun v => (SCPI_CTRL_SRQ, v))) = l := by
+  induction l with
+  | nil => rfl
+  | cons a l ih => simp [srqOf, List.filter_cons] at ih ⊢; exact ih
+
+theorem toSt_ofSt (s : St) : toSt (ofSt s) s = s := by
+  simp only [toSt, ofSt, srqOf_map]
+theorem cb_ofSt (s : St) : CB (ofSt s) := ⟨rfl, rfl⟩
 
 end ScpiVerif.Lemmas.RegsC
